@@ -343,6 +343,32 @@ fn sequential_case(ctx: &mut Ctx, case: u64, rng: &mut Rng) {
         let mut uniq = 0;
         let mut known = vec![];
         for _ in 0..rng.range(5, 40) {
+            // sometimes a pipelined batch: several requests are sent without waiting for the replies
+            // (they are sent in order, so the replies must be those of the sequential order)
+            if rng.chance(1, 6) {
+                let k = rng.range(2, 6);
+                let batch: Vec<(usize, Op)> = (0..k)
+                    .map(|_| (rng.below(2), gen_op(rng, 2, &mut uniq, 0, false, &mut known)))
+                    .map(|(d, op)| if matches!(op, Op::Drop) { (d, Op::GetState) } else { (d, op) })
+                    .collect();
+                let futs = batch.iter().map(|(d, op)| clients[*d].exec(op));
+                let got: Vec<Reply> = { use n0_future::IterExt; futs.join_all().await };
+                ctx.count("pipelined_batches", 1);
+                let mut bad = None;
+                for ((d, op), g) in batch.iter().zip(got.iter()) {
+                    let want = specs[*d].apply(op, &docs[*d], t);
+                    trace.push(format!("doc{d} (pipelined) {op:?} -> {g:?}"));
+                    ctx.count("sequential_steps", 1);
+                    if *g != want && bad.is_none() {
+                        bad = Some(want);
+                    }
+                }
+                if let Some(want) = bad {
+                    ctx.violation(case, "pipelined-replies-differ-from-request-order-semantics", json!({"expected_first_mismatch": format!("{want:?}"), "trace": trace}));
+                    return;
+                }
+                continue;
+            }
             let d = rng.below(2);
             let op = gen_op(rng, 2, &mut uniq, 0, false, &mut known);
             let want = specs[d].apply(&op, &docs[d], t);
